@@ -8,6 +8,7 @@ src/utils/str.py, src/utils/gen.py and plugins/Config/plugin.py it relies on).
   Wrap.lean    NormalizedString.serialize: textwrap word runs, line filling, continuation lines
   Validators.lean  OnlySomeStrings, guarded String classes, ValidQuotes, Json/Float/Regexp layers (engines = parameters)
   Lazy.lean    lazy re-reading of stale nodes after a second open_registry in the same process
+  PerlRe.lean  utils.str.perlReToPythonRe: delimiter, body scan with escapes, flags (the re engine is a parameter)
   Tree.lean    the live value tree: _wasSet, _setValue(inherited), _makeChild, getSpecific,
                Config reset, which nodes are written, start-up registration from the cache
 
@@ -16,6 +17,7 @@ This file ties them together: what a save followed by a load gives.
 import LimnoriaModel.C15.Tree
 import LimnoriaModel.C15.Wrap
 import LimnoriaModel.C15.Validators
+import LimnoriaModel.C15.PerlRe
 import LimnoriaModel.C15.Lazy
 namespace C15
 open Py
